@@ -350,7 +350,8 @@ def finish(mod, prop, tier, seed, parts, t0, workers):
     reported = []
     known_hit = []
     exit_code = 0
-    os.makedirs(os.path.join(VERIF, "replays"), exist_ok=True)
+    replay_dir = os.environ.get("VERIF_REPLAY_DIR") or os.path.join(VERIF, "replays")
+    os.makedirs(replay_dir, exist_ok=True)
     for key, lst in by_key.items():
         if key in known_active:
             known_hit.append(key)
@@ -362,7 +363,7 @@ def finish(mod, prop, tier, seed, parts, t0, workers):
         if os.environ.get("VERIF_NO_SHRINK"):
             budget = 0
         plan, steps, res, vio = shrink_and_run(mod, prop, first["plan"], first["violation"], budget)
-        path = os.path.join(VERIF, "replays", "%s-%s-%s-%s.json" % (
+        path = os.path.join(replay_dir, "%s-%s-%s-%s.json" % (
             prop, seed, first["run"], hashlib.sha1(key.encode()).hexdigest()[:8]))
         with open(path, "w") as fd:
             json.dump({"property": prop, "seed": seed, "run": first["run"], "tier": tier, "violation": vio,
@@ -407,8 +408,10 @@ def finish(mod, prop, tier, seed, parts, t0, workers):
     ev["coverage"]["probes_at_zero"] = zero
     if zero and tier == "thorough":
         print("warning: probes never hit: %s" % zero)
-    os.makedirs(os.path.join(VERIF, "evidence"), exist_ok=True)
-    with open(os.path.join(VERIF, "evidence", prop + ".json"), "w") as fd:
+    # (the self-tests that run checks against patched copies of the repository redirect their evidence)
+    evidence_dir = os.environ.get("VERIF_EVIDENCE_DIR") or os.path.join(VERIF, "evidence")
+    os.makedirs(evidence_dir, exist_ok=True)
+    with open(os.path.join(evidence_dir, prop + ".json"), "w") as fd:
         json.dump(ev, fd, indent=1, sort_keys=True)
     if herrs:
         print("HARNESS_ERROR (%d) – not a verdict about the property:" % len(herrs))
